@@ -192,6 +192,9 @@ def check(prop, tier, seed):
         if i % 4 == 2:      # a quarter of the servers admit one request per connection at a time (concurrency_limit_per_connection)
             st['limit'] = 1
     stims += permits
+    # a run of transient accept errors in which the signal fires; a connection becomes acceptable only after the run
+    stims += [{'class': 'signal_inside_an_accept_error_run', 'calls': [], 'steps': [], 'shim': {'rq': 65536, 'wq': 65536, 'pend': 0},
+               'storm': {'errors': e, 'fire_at': f}} for e, f in ((400, 1), (400, 3), (1000, 200), (300, 50))]
     ev, path = simple.run_lab('shutdown', stims, tag, 'schedules')
     simple.validate(prop, 'Trace_Shutdown', verdict, ev, path, 'schedules', cov, clause_filter=lambda c: c.startswith('C13.') or c in ('NoPanic', 'NoHang'))
     mech_validate(verdict, cov, ev, tag, 'schedules')
